@@ -34,7 +34,7 @@ def header_rule(repo, res, schema_attrs, schema_root):
         date = Obj(None, {"strftime": PyFunc(strftime, "strftime")}, closed=True, label="date") if with_optional else NONE
         ct = Sym("computation_time", "num") if with_optional else NONE
         cpu = _S(Sym("cpu_name", lang=[(frozenset("abcdefghijklmnopqrstuvwxyz"), 1, MAXREP)]))
-        pname = Str.lit("auto") if auto else (Str.lit("Some CPU @ 3GHz") if with_optional else NONE)
+        pname = Str.lit("auto") if auto else (Str.lit("Intel(R) Core(TM) i7-8650U CPU @ 1.90GHz") if with_optional else NONE)
         s_obj = Obj(sol, {"benchmark_id": bid, "date": date, "_date": date, "computation_time": ct, "_computation_time": ct, "processor_name": pname, "_processor_name": pname}, label="solution")
         ev = Ev(repo)
         ev.pure_modules = {"np", "numpy", "math"}
@@ -135,3 +135,92 @@ def trajectory_rule(repo, res):
         except Undecided as x:
             raise AnalysisError("%s [%s]: %s" % (qn, tt.name, x))
         res.check("NUMFMT", "trajectory node [%s]: tag, planning problem id and states (in time order) are read back" % tt.name, not bad, wr.mod, ctn, "trajectory node [%s]: %s" % (tt.name, "; ".join(bad[:3])), "planning-problem id, trajectory type or the states of a trajectory do not survive writing and reading", qualname=qn)
+
+
+def state_rule(repo, res):
+    """every state type: _create_state_node -> _parse_state gives back every field (position as its two coordinates,
+    the time step as an integer), evaluated against the element model"""
+    wr = repo.cls(SO, "CommonRoadSolutionWriter")
+    rd = repo.cls(SO, "CommonRoadSolutionReader")
+    st_cls = repo.cls(SO, "StateType")
+    csn, ps = wr.methods.get("_create_state_node"), rd.methods.get("_parse_state")
+    if csn is None or ps is None:
+        raise AnalysisError("_create_state_node / _parse_state missing")
+    ev0 = Ev(repo)
+    for st in ev0.iterate(ClassRef(st_cls), None):
+        qn = "CommonRoadSolutionWriter._create_state_node"
+        bad = []
+        try:
+            fields = ev0.getattr(st, "fields", csn, wr.mod)
+            names = [f.text() for f in fields.items]
+            vals = {}
+            for n in names:
+                if n == "position":
+                    vals[n] = ListV([Sym("position_x", "num"), Sym("position_y", "num")])
+                elif n == "time_step":
+                    vals[n] = Sym("time_step", "int", positive=True)
+                else:
+                    vals[n] = Sym(n, "num")
+            state = Obj(None, dict(vals), closed=True, label="%s state" % st.name)
+            ev = Ev(repo)
+            ev.pure_modules = {"math", "np", "numpy"}
+            node = ev.call_fn(ev.bind(csn, wr, None, via_class=ClassRef(wr)), [st, state], {}, csn)
+            if not isinstance(node, ElemV) or not same(node.tag, st.value):
+                bad.append("state node %s, expected tag %s" % (show(node), show(st.value)))
+            else:
+                ev2 = Ev(repo)
+                ev2.pure_modules = {"math", "np", "numpy"}
+                back = ev2.call_fn(ev2.bind(ps, rd, None, via_class=ClassRef(rd)), [st, node], {}, ps)
+                got = back.args if isinstance(back, Ctor) else None
+                if got is None:
+                    bad.append("read back %s" % show(back))
+                else:
+                    for n in names:
+                        g = got.get(n)
+                        if isinstance(g, Ctor) and g.name in ("np.array", "numpy.array", "np.asarray"):
+                            g = list(g.args.values())[0]
+                        if not same(g, vals[n]):
+                            bad.append("%s read back as %s" % (n, show(g)))
+                    extra = sorted(set(got) - set(names))
+                    if extra:
+                        bad.append("unexpected fields %s" % extra)
+        except _Raise as x:
+            bad.append("raises %s" % x.what)
+        except Undecided as x:
+            raise AnalysisError("%s [%s]: %s" % (qn, st.name, x))
+        res.check("TAB-CLASS", "state [%s]: every field written is read back into the same field, unchanged" % st.name, not bad, wr.mod, csn, "state [%s]: %s" % (st.name, "; ".join(bad[:3])), "a state value does not survive writing and reading (paired with another field, dropped, or converted)", qualname=qn)
+
+
+def trajectory_type_rule(repo, res):
+    """the trajectory type a solution is written under is the type of its *current* trajectory: replacing the
+    trajectory through the setter must make `trajectory_type` the type of the new trajectory (the writer takes the
+    element name and the state fields from it)"""
+    pps = repo.cls(SO, "PlanningProblemSolution")
+    tt_cls = repo.cls(SO, "TrajectoryType")
+    owner, pr = repo.find_prop(pps, "trajectory")
+    if not pr or pr.get("set") is None:
+        raise AnalysisError("PlanningProblemSolution.trajectory setter missing")
+    st = pr["set"]
+    ev0 = Ev(repo)
+    members = ev0.iterate(ClassRef(tt_cls), None)
+    old_t, new_t = members[0], members[-1]
+    old_traj = Obj(None, {}, closed=True, label="old trajectory")
+    new_traj = Obj(None, {}, closed=True, label="new trajectory")
+    me = Obj(pps, {"_trajectory": old_traj, "_trajectory_type": old_t, "_vehicle_model": Obj(None, {}, label="vehicle model"), "_cost_function": Obj(None, {}, label="cost function")}, label="planning problem solution")
+    ev = Ev(repo)
+    ev.stubs["TrajectoryType.get_trajectory_type"] = lambda a: new_t if any(v is new_traj for v in a.values()) else old_t
+    ev.stubs["PlanningProblemSolution._check_trajectory_supported"] = lambda a: True
+    ev.stubs["TrajectoryType.valid_vehicle_model"] = lambda a: True
+    bad = []
+    try:
+        ev.call_fn(ev.bind(st, owner, me), [new_traj], {}, st)
+        if ev.getattr(me, "trajectory", st, owner.mod) is not new_traj:
+            bad.append("the new trajectory is not stored")
+        tt = ev.getattr(me, "trajectory_type", st, owner.mod)
+        if not same(tt, new_t):
+            bad.append("trajectory_type is %s after assigning a trajectory of type %s" % (show(tt), show(new_t)))
+    except _Raise as x:
+        bad.append("raises %s" % x.what)
+    except Undecided as x:
+        raise AnalysisError("PlanningProblemSolution.trajectory setter: %s" % x)
+    res.check("TAB-ALIGN", "assigning a trajectory updates the trajectory type the solution is written under", not bad, pps.mod, st, "PlanningProblemSolution.trajectory setter: %s" % "; ".join(bad), "the solution is written under the element name and state fields of the previous trajectory's type: the file is invalid, cannot be written, or reads back as another trajectory type", qualname="PlanningProblemSolution.trajectory")
